@@ -59,7 +59,7 @@ Theorem C05_hinv_initial : hinv hinv_ex_msg [] [].
 Proof. exact hinv_initial. Qed.
 
 (* ------------------------------------------------------------------ over op lists *)
-From CV Require Import Core.BuildOps Core.BuildInv Core.HeapOps Core.HeapCopy Core.HeapSteps Core.HeapValid.
+From CV Require Import Core.Reader Core.BuildOps Core.BuildInv Core.HeapOps Core.HeapCopy Core.HeapCopySrc Core.HeapSteps Core.HeapValid.
 
 (* hinv implies the strict validity predicate (worklist terminates within its fuel; all regions
    collected are table regions, pairwise equal or disjoint) *)
@@ -86,22 +86,55 @@ Theorem C05_copy_all : forall f,
 Proof. exact copy_all. Qed.
 Print Assumptions C05_copy_all.
 
+(* copies from another message: what readPtr returns for any source bytes 0..255 is a source
+   view (closed under readPtr and List.Struct) ... *)
+Theorem C05_readPtr_sview : forall (sm : segs) rl sid addr depth q rl',
+  msg_ok sm -> 0 <= sid < zlen sm ->
+  readPtr true sm rl sid (nth (Z.to_nat sid) sm []) addr depth = (Ok q, rl') -> sview sm q.
+Proof. exact readPtr_sview. Qed.
+Print Assumptions C05_readPtr_sview.
+
+(* ... and writePtr / copyStruct with a source view as source (deep copies of structs, lists of
+   every kind incl. the tag word, capabilities appended to the capability table) keep the table
+   invariant of the message under construction *)
+Theorem C05_copy_src_all : forall f,
+  (forall w objs pads q src fc w',
+     tinv w objs pads -> msg_ok (w_src w) -> In q ((0, 0) :: flat_map slots objs) -> sview (w_src w) src ->
+     write_ptr f true w (fst q) (snd q) InSrc src fc = Ok w' -> nsegs (w_dst w') < B32 ->
+     exists eo ep, tinv w' (objs ++ eo) (pads ++ ep)) /\
+  (forall w objs pads dst src w',
+     tinv w objs pads -> msg_ok (w_src w) -> view objs dst -> (p_valid dst = true -> p_kind dst = KStruct) ->
+     sview (w_src w) src -> (p_valid src = true -> p_kind src = KStruct) ->
+     copy_struct f true w dst InSrc src = Ok w' -> nsegs (w_dst w') < B32 ->
+     exists eo ep, tinv w' (objs ++ eo) (pads ++ ep)).
+Proof. exact copy_src_all. Qed.
+Print Assumptions C05_copy_src_all.
+
+(* every op leaves the source message and the source views of the pool intact *)
+Theorem C05_step_spool : forall e st o st' out,
+  cfg_strict (e_cfgs e) = true -> spool st -> dst_only st o -> bstep e st o = (Some st', out) -> spool st'.
+Proof. exact bstep_spool. Qed.
+Print Assumptions C05_step_spool.
+
 (* every step of the sub-language keeps the invariant, "every valid pool handle is a view of
    the object table" and "the table holds handle cores" *)
 Theorem C05_step_hinv : forall e st objs pads o st' out,
-  sinv st objs pads -> sub_op o = true -> bstep e st o = (Some st', out) ->
+  sinv st objs pads -> spool st -> sub_op o = true -> dst_only st o -> bstep e st o = (Some st', out) ->
   nsegs (w_dst (st_w st')) < 4294967296 ->
   exists objs' pads', sinv st' objs' pads'.
 Proof. exact bstep_hinv. Qed.
 Print Assumptions C05_step_hinv.
 
-(* C05 for the builder inside one message: all arena configurations with a root word, all
-   programs accepted by the executable predicate sub_prog (every op of the interpreter; the
-   predicate only bounds arguments, e.g. struct sizes in the Go ranges), all reachable states (fewer than 2^32 segments):
+(* C05 for the builder: all arena configurations with a root word, any source message (bytes
+   0..255, read with the repaired tag check), all programs accepted by the executable predicate
+   sub_prog (every op of the interpreter; the predicate only bounds arguments), data setters
+   applied to handles of the message under construction (dst_run), all reachable states (fewer than 2^32 segments):
    the message under construction passes the strict validity predicate *)
 Theorem C05_heap_inv_sublang : forall a cfgd cfgs ncaps fuel src ops m,
   arena_spec_wf a -> root_cap_ok a -> create a (init_rlimit cfgd) = Ok m -> sub_prog ops = true ->
+  msg_ok src -> cfg_strict cfgs = true ->
   let st0 := mkBSt (mkW m src (init_rlimit cfgs)) [] in
+  dst_run (mkEnv cfgd cfgs ncaps fuel) st0 ops ->
   Forall seg_bound (bstates (mkEnv cfgd cfgs ncaps fuel) st0 ops) ->
   Forall (fun st => valid_message (bm_data (w_dst (st_w st))) = VOk) (bstates (mkEnv cfgd cfgs ncaps fuel) st0 ops).
 Proof. exact heap_inv_sublang_valid. Qed.
@@ -119,7 +152,7 @@ Proof. exact sublang_example. Qed.
    C05_heap_inv_sublang hold for this program and the computed verdicts agree *)
 Theorem C05_sublang_example2 :
   create (ArMulti None) (init_rlimit (mkCfg 0 0 true true)) = Ok ex2_m /\
-  sub_prog ex2_ops = true /\
+  sub_prog ex2_ops = true /\ msg_ok ex2_src /\ dst_run ex2_env ex2_st0 ex2_ops /\
   Forall seg_bound (bstates ex2_env ex2_st0 ex2_ops) /\
-  map (fun st => valid_message (bm_data (w_dst (st_w st)))) (bstates ex2_env ex2_st0 ex2_ops) = repeat VOk 33.
+  map (fun st => valid_message (bm_data (w_dst (st_w st)))) (bstates ex2_env ex2_st0 ex2_ops) = repeat VOk 37.
 Proof. exact sublang_example2. Qed.
